@@ -221,7 +221,7 @@ META["C17"] = {
     "COMPONENTS": {"real": ["jacobian_materialize", "jacobian_monte_carlo_fwd", "jacobian_monte_carlo_rev", "_verify_fun_and_x"],
                    "stub": ["random source: backend.random.rademacher scripted with the full sign cube; split logged"],
                    "seam": ["probdiffeq.backend.random module attributes"]},
-    "PROBES": ["cube_probes", "corruptions_rejected"],
+    "PROBES": ["cube_probes", "corruptions_rejected", "odd_probe_counts_checked"],
     "ASSUMPTIONS": ["exactly-unbiased is decided by full enumeration of the probes inside one call (exhaustive per call), the "
                     "space of maps/points/shapes is sampled by seed"],
     "LEVEL_TEXT": "Seeded exploration over maps, points and shapes with the probe source owned by the simulator and enumerated "
@@ -360,20 +360,20 @@ META["C18"] = {
 
 META["C20"] = {
     "LEVEL": "fault_enumeration",
-    "TIERS": {"quick": 277, "thorough": 277},
+    "TIERS": {"quick": 285, "thorough": 285},
     "WALLCAP": {"quick": 300, "thorough": 600},
     "EXHAUSTIVE": {"quick": True, "thorough": True},
-    "RULE": ("Complete enumeration of a table of 277 entries: valid call recipes for the constructors / entry points named in the "
+    "RULE": ("Complete enumeration of a table of 285 entries: valid call recipes for the constructors / entry points named in the "
              "property (Wiener and diffuse priors, transition(), exactness flags, Taylor-coefficient containers, constraint "
              "constructors, both losses, residual-based error estimate, lift orders, exponential priors, jet expansion, matrix-free "
              "ensemble size, three strategy/routine pairings) x dense / isotropic / block-diagonal x single-field corruptions (wrong "
-             "rank, length, tree structure, dtype, object type, inadmissible value) plus 39 control entries (the uncorrupted call "
+             "rank, length, tree structure, dtype, object type, inadmissible value) plus 41 control entries (the uncorrupted call "
              "must work) and 9 warning entries. One evaluation = one entry; distinct = distinct entry id; all are non-trivial."),
     "COMPONENTS": {"real": ["all public constructors / entry points listed in the rule"], "stub": [], "seam": ["caller arguments (F9)"]},
     "PROBES": ["raised", "controls_ok"],
     "ASSUMPTIONS": ["corruptions the documented API accepts (e.g. scalar exactness leaves for the dense model, a single-number "
                     "residual std for the isotropic model) are not in the table",
-                    "the table is finite and hand-written: it enumerates its own 277 entries, not 'every public entry point'"],
+                    "the table is finite and hand-written: it enumerates its own 285 entries, not 'every public entry point'"],
     "LEVEL_TEXT": "Fault enumeration: every (recipe, single-field corruption, factorisation) entry of a finite table is executed; "
                   "the oracle is 'raises at construction or first use, never numbers' and 'warns naming the remedy'.",
     "LEVEL_NOTE": "Trusted: the recipes in checks/c20.py; controls guard against recipes that fail for unrelated reasons.",
